@@ -9,7 +9,7 @@
 //! `probe` prints the boundary cases.
 use routee_compass_core::algorithm::search::direction::Direction;
 use routee_compass_core::algorithm::search::search_algorithm::SearchAlgorithm;
-use routee_compass_core::model::network::VertexId;
+use routee_compass_core::model::network::{EdgeId, VertexId};
 use serde_json::{json, Value};
 use verif_harness::searchkit::*;
 use verif_harness::*;
@@ -56,10 +56,13 @@ struct KCase {
     /// None = the "similarity" / "termination" key is left out of the configuration (the defaults apply)
     sim: Option<Sim>,
     term_explicit: bool,
+    /// vertex ids, or edge ids when `edge` is set
     source: usize,
     target: Option<usize>,
     /// the underlying search is expected to be optimal (Dijkstra / consistent estimate)
     optimal: bool,
+    /// edge-oriented query: SearchAlgorithm::run_edge_oriented with origin / destination EDGES
+    edge: bool,
 }
 impl KCase {
     fn sim_eff(&self) -> Sim {
@@ -135,7 +138,11 @@ fn run_once(w: &World, c: &KCase, sim: Option<Sim>) -> Outcome {
         let si = build_instance(&w2);
         let alg: SearchAlgorithm = serde_json::from_value(algorithm_json(&c2, sim)).expect("algorithm configuration");
         let qj = kquery_json(&c2);
-        let r = alg.run_vertex_oriented(VertexId(c2.source), c2.target.map(VertexId), &qj, &Direction::Forward, &si);
+        let r = if c2.edge {
+            alg.run_edge_oriented(EdgeId(c2.source), c2.target.map(EdgeId), &qj, &Direction::Forward, &si)
+        } else {
+            alg.run_vertex_oriented(VertexId(c2.source), c2.target.map(VertexId), &qj, &Direction::Forward, &si)
+        };
         outcome_of(r)
     }) {
         Ok(o) => o,
@@ -217,7 +224,7 @@ fn case_to_json(c: &KCase) -> Value {
         "term": match c.term { KTerm::Exact => json!("exact"), KTerm::MaxIteration(m) => json!({"max": m}), KTerm::Factor(f) => json!({"factor": f}) },
         "term_explicit": c.term_explicit,
         "sim": match c.sim { None => json!(null), Some(Sim::AcceptAll) => json!("accept_all"), Some(Sim::EdgeId(i)) => json!({"edge_id": i, "threshold": THRESHOLDS[i].0}), Some(Sim::Distance(i)) => json!({"distance": i, "threshold": THRESHOLDS[i].0}) },
-        "source": c.source, "target": c.target, "optimal": c.optimal,
+        "source": c.source, "target": c.target, "optimal": c.optimal, "orient": if c.edge { "edge" } else { "vertex" },
         "algorithm_config": algorithm_json(c, c.sim), "query": kquery_json(c),
     })
 }
@@ -261,6 +268,7 @@ fn case_from_json(v: &Value) -> KCase {
         source: v["source"].as_u64().unwrap() as usize,
         target: v["target"].as_u64().map(|x| x as usize),
         optimal: v["optimal"].as_bool().unwrap_or(false),
+        edge: v["orient"] == "edge",
     }
 }
 
@@ -283,13 +291,16 @@ fn add_case(cx: &mut Ctx, family: &str, w: &World, c: &KCase) {
         _ => o.routes.len(),
     };
     // least cost from the source over the cost table (certificate for the checker)
-    let pi = true_dist(w, Dir::Reverse, c.source);
+    // (edge-oriented: from the end vertex of the origin edge, where the vertex-oriented run starts)
+    let pi_source = if c.edge { w.edges.get(c.source).map(|e| e.1).unwrap_or(usize::MAX) } else { c.source };
+    let pi = true_dist(w, Dir::Reverse, pi_source);
     let world = coq_world(w, NumKind::F);
     let kq = coq_kq(c);
     let terms = vec![
-        format!("KR.line_MF {} {}%Z {} {} {}", default_fuel(w), id, world, kq, DETAIL),
+        format!("KR.line_M{}F {} {}%Z {} {} {}", if c.edge { "E" } else { "" }, default_fuel(w), id, world, kq, DETAIL),
         format!(
-            "KR.line_S {}%Z {} {} {} {} {} {} {} {}",
+            "KR.line_S{} {}%Z {} {} {} {} {} {} {} {}",
+            if c.edge { "E" } else { "" },
             id,
             world,
             kq,
@@ -308,6 +319,7 @@ fn add_case(cx: &mut Ctx, family: &str, w: &World, c: &KCase) {
     st.count(&format!("family:{}", family));
     st.count(&format!("status:{}", o.status));
     st.count(&format!("alg:{:?}", c.alg));
+    st.count(if c.edge { "orient:edge" } else { "orient:vertex" });
     st.count(&format!("under:{}", match c.under { Alg::Dijkstra => "dijkstra".to_string(), Alg::AStar(None) => "astar(default)".to_string(), Alg::AStar(Some(x)) => format!("astar({})", x) }));
     st.count(&format!("k:{}", c.k_eff().map(|k| k.to_string()).unwrap_or("bad".into())));
     st.count(&format!("k_from:{}", if c.qk == QK::Absent { "config" } else { "query" }));
@@ -336,7 +348,7 @@ fn add_case(cx: &mut Ctx, family: &str, w: &World, c: &KCase) {
 }
 
 fn base_case(alg: KAlg, k: usize, s: usize, t: usize) -> KCase {
-    KCase { alg, under: Alg::Dijkstra, query_wf: None, k, qk: QK::Absent, term: KTerm::Exact, sim: None, term_explicit: false, source: s, target: Some(t), optimal: true }
+    KCase { alg, under: Alg::Dijkstra, query_wf: None, k, qk: QK::Absent, term: KTerm::Exact, sim: None, term_explicit: false, source: s, target: Some(t), optimal: true, edge: false }
 }
 
 /// the two corpus witnesses of D-YEN and the D-ACCEPTALL diamond (also kept as files under corpus/C13)
@@ -441,6 +453,37 @@ fn boundary_cases() -> Vec<(String, World, KCase)> {
         out.push((format!("{:?}_unreachable", alg), two_lanes(), base_case(alg, 1, 3, 0)));
         out.push((format!("{:?}_unknown_vertex", alg), two_lanes(), base_case(alg, 1, 0, 17)));
     }
+    // ---- edge-oriented queries (SearchAlgorithm::run_edge_oriented): origin edge 0, destination edge 1, three lanes of
+    // different length between them, so the alternatives end in different states
+    let lanes3 = World::new(7, vec![(0, 1), (2, 3), (1, 4), (4, 2), (1, 5), (5, 2), (1, 6), (6, 2)], vec![1.5, 2.5, 5.0, 5.25, 6.0, 6.5, 7.0, 7.75]);
+    for k in 1..=4 {
+        for sim in [None, Some(Sim::EdgeId(3))] {
+            let mut c = base_case(KAlg::SingleVia, k, 0, 1);
+            c.edge = true;
+            c.sim = sim;
+            out.push((format!("eo_three_lanes_k{}_{:?}", k, sim), lanes3.clone(), c));
+        }
+    }
+    let mut w_init = lanes3.clone();
+    w_init.init = 100.0;
+    let mut c = base_case(KAlg::SingleVia, 3, 0, 1);
+    c.edge = true;
+    out.push(("eo_three_lanes_initial_state".into(), w_init, c.clone()));
+    c.alg = KAlg::Yens;
+    c.k = 1;
+    out.push(("eo_yen_k1".into(), lanes3.clone(), c.clone()));
+    let mut c = base_case(KAlg::SingleVia, 3, 0, 0);
+    c.edge = true;
+    out.push(("eo_same_edge".into(), lanes3.clone(), c.clone()));
+    c.target = Some(2);
+    out.push(("eo_adjacent_edges".into(), lanes3.clone(), c.clone()));
+    c.target = None;
+    out.push(("eo_no_destination".into(), lanes3.clone(), c.clone()));
+    c.target = Some(40);
+    out.push(("eo_unknown_destination_edge".into(), lanes3.clone(), c.clone()));
+    c.source = 1;
+    c.target = Some(0);
+    out.push(("eo_unreachable".into(), lanes3.clone(), c.clone()));
     // underlying A-star (default factor, exact estimate) and a query weight factor
     let mut w = two_lanes();
     gen_heuristic(&mut Rng::new(1), &mut w, Dir::Forward, Some(3), HKind::Exact);
@@ -667,6 +710,18 @@ fn main() {
                 ("random", (w, s, t))
             }
         };
+        // one world in four is queried edge to edge: a stub edge into the origin and one out of the destination
+        let stubs = if r.chance(1, 4) && s != t {
+            let (u, v) = (w.n, w.n + 1);
+            w.n += 2;
+            w.edges.push((u, s));
+            w.edges.push((t, v));
+            let extra = gen_costs(&mut r, 2, fam);
+            w.cost.extend(extra);
+            Some((w.edges.len() - 2, w.edges.len() - 1))
+        } else {
+            None
+        };
         // underlying search; the estimate table is exact (consistent) or zero, so the forward search is optimal
         let under = match r.below(6) {
             0..=2 => Alg::Dijkstra,
@@ -720,6 +775,12 @@ fn main() {
                 source: s,
                 target: Some(t),
                 optimal: true,
+                edge: false,
+            };
+            // edge-oriented worlds: the query names the two stub edges
+            let c = match stubs {
+                Some((e1, e2)) => KCase { source: e1, target: Some(e2), edge: true, ..c },
+                None => c,
             };
             add_case(&mut cx, &if yen_big { format!("yen_k_ge_2_{}", family) } else { family.clone() }, &w, &c);
         }
